@@ -29,6 +29,9 @@ structure PreFacts (assignments : AMap Ex) (known : List String) (g0 : GBuild) (
   edges : ∀ e ∈ st.graph.edges, e ∈ g0.edges ∨ ∃ f, (e.2, f) ∈ st.info.byOutput ∧ e.1 ∈ inNames f
   /-- the components without an output are kept in the order of the table -/
   noOutSub : st.info.noOutput.Sublist done
+  /-- the graph has every edge of the assignment graph and an edge from every input of an active component to its output -/
+  edgesG0 : ∀ e ∈ g0.edges, e ∈ st.graph.edges
+  edgesFixed : ∀ n f, (n, f) ∈ st.info.byOutput → ∀ i ∈ inNames f, (i, n) ∈ st.graph.edges
 
 theorem PreFacts.mono {assignments known g0 done st} (h : PreFacts assignments known g0 done st) (f : FixedFunction) :
     PreFacts assignments known g0 (done ++ [f]) st where
@@ -39,6 +42,8 @@ theorem PreFacts.mono {assignments known g0 done st} (h : PreFacts assignments k
   nodes := h.nodes
   edges := h.edges
   noOutSub := h.noOutSub.trans (List.sublist_append_left _ _)
+  edgesG0 := h.edgesG0
+  edgesFixed := h.edgesFixed
 
 theorem addDeps_nil_known (target : String) (srcs : List String) (g : GBuild) :
     srcs.foldl (fun g n => g.insert n target) g = addDeps [] target srcs g := by
@@ -115,6 +120,20 @@ theorem preprocessOne_facts (g0 : GBuild) (done : List FixedFunction) (st : PreS
           exact {
             noOut := fun g hg => ⟨List.mem_append_left _ (hf.noOut g hg).1, (hf.noOut g hg).2⟩
             noOutSub := hf.noOutSub.trans (List.sublist_append_left _ _)
+            edgesG0 := fun e he => (a3 e).mpr (Or.inl (hf.edgesG0 e he))
+            edgesFixed := by
+              intro n g hg i hi
+              have hget : (st.info.byOutput.insert out f).get? n = some g :=
+                AMap.get?_of_mem_nodup _ _ _ (AMap.keys_insert_nodup _ _ _ hf.byKeys) hg
+              unfold AMap.get? at hget
+              rw [AMap.lookup_insert] at hget
+              by_cases hn : n = out
+              · subst hn
+                simp only [if_true, Option.some.injEq] at hget
+                subst hget
+                exact (a3 (i, n)).mpr (Or.inr ⟨rfl, hi, rfl⟩)
+              · simp only [hn, if_false] at hget
+                exact (a3 (i, n)).mpr (Or.inl (hf.edgesFixed n g (AMap.mem_of_get? _ _ _ hget) i hi))
             byKeys := AMap.keys_insert_nodup _ _ _ hf.byKeys
             byOut := by
               intro n g hg
@@ -182,7 +201,7 @@ theorem preprocessOne_facts (g0 : GBuild) (done : List FixedFunction) (st : PreS
           | nil => rfl
           | cons a l => rw [hs] at hclean; simp at hclean
         have hb := hf.mono f
-        exact ⟨h0, ⟨hb.noOut, hb.byKeys, hb.byOut, hb.wf, hb.nodes, hb.edges, hb.noOutSub⟩⟩
+        exact ⟨h0, ⟨hb.noOut, hb.byKeys, hb.byOut, hb.wf, hb.nodes, hb.edges, hb.noOutSub, hb.edgesG0, hb.edgesFixed⟩⟩
 
 theorem preprocessOne_errors_back (st : PreState) (f : FixedFunction)
     (h : (preprocessOne fl widths constants assignments known st f).errors = []) : st.errors = [] := by
